@@ -137,6 +137,7 @@ class ShardResult:
         self.nviol = 0
         self.viol = []       # dicts
         self.viol_sigs = set()
+        self.lost = 0
         self.digest = 0
         self.samples = []
         self.last = None
@@ -164,6 +165,8 @@ class ShardResult:
             if len(self.viol) < MAX_STORED:
                 self.viol_sigs.add(sk)
                 self.viol.append(dict(suite=suite_name, kind=kind, sig=_jsonable(sig), msg=msg, case=case))
+            elif sk not in self.viol_sigs:
+                self.lost += 1       # a violation whose signature has no stored representative
         if want_sample and len(self.samples) < 4:
             self.samples.append(case)
         self.last = case
@@ -259,6 +262,7 @@ class Totals:
         self.nviol = 0
         self.viol = []
         self.digest = 0
+        self.lost = 0
         self.samples = []
         self.suites = []
         self.exhaustive = True
@@ -272,6 +276,7 @@ class Totals:
         self.classes |= r.classes
         self.nviol += r.nviol
         self.viol.extend(r.viol)
+        self.lost += r.lost
         self.digest ^= r.digest
 
 
